@@ -36,7 +36,7 @@ def params(tier):
     if tier == 'quick':
         return {'examples': 60, 'wall': 80, 'case_timeout': 60, 'gaps': 60}
 
-    return {'examples': 1500, 'wall': 1500, 'case_timeout': 240, 'gaps': 400}
+    return {'examples': 1500, 'wall': 600, 'case_timeout': 240, 'gaps': 400}
 
 
 def floors(tier):
